@@ -29,6 +29,17 @@ def run(modname, fname, kwargs, trace=False):
         seen.add('gin.%s:%s' % (os.path.basename(f)[:-3], co.co_name))
     return None
 
+  if os.environ.get('VERIF_EXPLAIN'):
+    # development aid: report the harness line that returned False
+    def tracer(frame, event, arg, _t=tracer):
+      if frame.f_code.co_filename.startswith('/verif/vf/harness'):
+        def local(fr, ev, a):
+          if ev == 'return' and a is False:
+            sys.stderr.write('RETURN False at %s:%d\n' % (fr.f_code.co_filename, fr.f_lineno))
+          return local
+        return local
+      return None
+    trace = True
   err = None
   if trace:
     sys.settrace(tracer)
